@@ -99,6 +99,9 @@ class Sandbox:
         elif spelling == "unicode":
             args, kw = (self.uroot,), {}
             _AUDIT["root"] = os.path.realpath(self.uroot)
+        elif spelling == "handle404":
+            from baize import wsgi as W0, asgi as A0
+            args, kw = (self.root,), None
         elif spelling == "relative":
             os.chdir(self.dir)
             args, kw = ("root",), {}
@@ -108,6 +111,12 @@ class Sandbox:
             importlib.invalidate_caches()
             args, kw = ("root",), {"package": "c07pkg"}
         try:
+            if kw is None:
+                # a custom not-found application and non-default cache settings
+                wk = {"handle_404": W.PlainTextResponse("custom not found", 404), "cacheability": "private", "max_age": 1}
+                ak = {"handle_404": A.PlainTextResponse("custom not found", 404), "cacheability": "private", "max_age": 1}
+                out = {("wsgi", "Files"): W.Files(*args, **wk), ("wsgi", "Pages"): W.Pages(*args, **wk), ("asgi", "Files"): A.Files(*args, **ak), ("asgi", "Pages"): A.Pages(*args, **ak)}
+                return out
             out = {("wsgi", "Files"): W.Files(*args, **kw), ("wsgi", "Pages"): W.Pages(*args, **kw), ("asgi", "Files"): A.Files(*args, **kw), ("asgi", "Pages"): A.Pages(*args, **kw)}
         finally:
             if spelling == "relative":
@@ -180,10 +189,10 @@ def ref(kind, path):
     return ("notfound",)
 
 
-def request(app, iface, path, root=""):
+def request(app, iface, path, root="", method="GET"):
     from baize.exceptions import HTTPException
 
-    req = SV.AReq(path=path, root=root)
+    req = SV.AReq(path=path, root=root, method=method)
     if iface == "wsgi":
         res = SV.run_wsgi(app, SV.to_environ(req))
     else:
@@ -248,6 +257,11 @@ def judge(r, apps, spelling, iface, kind, path, root=""):
         r.violation(kindname, w, f"{where}: got {got!r:.100}, expected {want!r:.100}")
     else:
         r.add("outcomes", (kind, want[0]))
+        if got[0] == "file" and len(path) % 3 == 0:
+            # HEAD on a served file: same status and validators, no body, nothing outside opened
+            goth, resh = request(app, iface, path, root, "HEAD")
+            if goth != ("file", b"") or resh.header("etag") != res.header("etag") or resh.header("content-length") != res.header("content-length") or _AUDIT["log"]:
+                r.violation("head-differs", w, f"{where}: HEAD gave {goth!r:.80} etag {resh.header('etag')!r} length {resh.header('content-length')!r}; GET had etag {res.header('etag')!r} length {res.header('content-length')!r}")
 
 
 def all_paths(depth):
@@ -269,7 +283,7 @@ def all_paths(depth):
 
 def shards(tier, seed):
     n = 8 if tier == "quick" else 32
-    return [("paths", spelling, k, n) for spelling in ("absolute", "relative", "package", "unicode") for k in range(n)] + [("threads", "Files"), ("threads", "Pages")]
+    return [("paths", spelling, k, n) for spelling in ("absolute", "relative", "package", "unicode", "handle404") for k in range(n)] + [("threads", "Files"), ("threads", "Pages")]
 
 
 def thread_family(r, kind, tier):
